@@ -6,6 +6,7 @@ import server_checks
 import envelope_checks
 import misc_checks
 import idl_checks
+import gen_checks
 
 CHECKS = {
     "C01": (conn_checks.c01, conn_checks.replay_framing),
@@ -19,6 +20,7 @@ CHECKS = {
     "C09": (server_checks.c09, server_checks.replay_server),
     "C10": (server_checks.c10, server_checks.replay_server),
     "C11": (chain_checks.c11, chain_checks.replay_chain),
+    "C12": (gen_checks.c12, gen_checks.replay_proxy),
     "C13": (idl_checks.c13, idl_checks.replay_idl),
     "C14": (idl_checks.c14, idl_checks.replay_idl),
     "C17": (write_checks.c17, write_checks.replay_writing),
